@@ -32,14 +32,18 @@ LEVEL_NOTE = ("What is proved and what is not. READ-BACK: data fields (setter re
               "frame touch(state, op), every run is a chain of frames, the last setter on a data field / the last pointer setter "
               "on a slot is what is read back whatever other ops follow (C04_step_frame, C04_run_chain, C04_run_last_write_wins, "
               "C04_run_last_pointer_wins - the pointer version is conditional on readPtr returning a handle; combine with "
-              "C04_read_slot_total for the limits). SERIALISATION: only the unpacked paths are composed with builder states - "
-              "C04_marshal_roundtrip_states: for every state of the invariant with <= 2^30-1 segments Marshal succeeds, the "
-              "Encoder writes the same bytes, Unmarshal (also with trailing bytes) returns exactly the segments (from "
-              "C14_unmarshal_roundtrip, C14_encode_is_marshal), hence the same reads; the packed paths and the stream Decoder "
-              "with arbitrary chunking (C14 all_paths_same_segments) need every byte in 0..255, an invariant the builder proof "
-              "does not carry (sub_prog accepts NewData of arbitrary integers): for those paths 'same tree after packed / "
-              "Encoder-Decoder' is checked by the runs only. NOT STATED: the whole-program refinement builder_refines to an "
-              "abstract-store interpreter (the tree-mode programs check it dynamically); nothing is claimed about the message "
+              "C04_read_slot_total for the limits). SERIALISATION, at the segment level: C04_bytes_inv_sublang (every byte of every "
+              "reachable state is in 0..255; sub_prog requires NewData / NewTextFromBytes arguments to be bytes) and "
+              "C04_all_paths_states: for every state of the table invariant whose bytes are bytes, with <= 512 segments and a frame "
+              "within the Decoder's size limit, Marshal, Encoder, MarshalPacked, packed Encoder succeed and Unmarshal, "
+              "UnmarshalPacked and the stream Decoders (plain over any chunking, packed over any reader behaviour) return exactly "
+              "the segments built - hence the same reads; C04_marshal_roundtrip_states is the unpacked part up to 2^30-1 segments "
+              "(from C14_unmarshal_roundtrip, C14_encode_is_marshal, all_paths_same_segments). Not modelled: Marshal's own loading "
+              "of the segments from the arena (message.go) - runs only. NOT STATED: the whole-program refinement builder_refines "
+              "to an abstract-store interpreter (the tree-mode programs check it dynamically), so 'same TREE' after the round "
+              "trips is 'same segments, hence same result of every read' - a tree-valued statement is checked by the runs; the "
+              "bytes_ok premise of the older bit-setter read-back theorems is now discharged by C04_bytes_inv_sublang; nothing is "
+              "claimed about the message "
               "after a failed pointer setter / constructor (the run ends there).")
 DESIGN_REF = "DESIGN.md section 6, C04"
 
